@@ -14,7 +14,19 @@ import (
 type c07Input struct {
 	Stages []int  `json:"stages"`
 	Text   string `json:"text,omitempty"`
+	// JSON: the stage list is preceded by `| json` and runs over the JSON lines only: the labels a, b, c then carry
+	// numbers, booleans and strings as the parser produced them, not plain string attributes.
+	JSON bool `json:"json,omitempty"`
 }
+
+// c07JSONData: labels a, b, c as JSON values of several types (values spelled so that every rendering agrees).
+var c07JSONData = func() []mockq.Rec {
+	var out []mockq.Rec
+	for i, l := range []string{`{"a":1,"b":2,"c":"x"}`, `{"a":1}`, `{"a":true,"c":"x"}`, `{"b":-3,"c":"y"}`, `{"a":"1","b":"2"}`, `{"c":false}`, `{}`} {
+		out = append(out, mockq.Rec{TS: int64(i+1) * sec, Line: l})
+	}
+	return out
+}()
 
 func tl(s string) refmodel.TPart { return refmodel.TPart{Lit: s} }
 func tv(l string) refmodel.TPart { return refmodel.TPart{Label: l} }
@@ -106,6 +118,11 @@ var c07Data = c07Records()
 func c07Check(r *vkit.Run, in c07Input) bool {
 	r.Begin("C07", in)
 	q := &refmodel.LogQuery{}
+	data := c07Data
+	if in.JSON {
+		q.Stages = append(q.Stages, &refmodel.JSONStage{})
+		data = c07JSONData
+	}
 	ignoreErr := false
 	sawFail := false
 	for _, si := range in.Stages {
@@ -119,10 +136,10 @@ func c07Check(r *vkit.Run, in c07Input) bool {
 		}
 	}
 	in.Text = q.Text()
-	res := evalLog(c07Data, logqlengine.QuerierCapabilities{}, in.Text, -1)
+	res := evalLog(data, logqlengine.QuerierCapabilities{}, in.Text, -1)
 	r.Eval()
-	r.Step(len(c07Data) * len(in.Stages))
-	want := refmodel.EvalLog(q, c07Data, -1)
+	r.Step(len(data) * len(in.Stages))
+	want := refmodel.EvalLog(q, data, -1)
 	fail := func(why string, got, exp any) {
 		r.Fail("C07", in, nil, got, exp, in.Text+": "+why, "")
 	}
@@ -130,8 +147,8 @@ func c07Check(r *vkit.Run, in c07Input) bool {
 		fail(fmt.Sprint(res.brief()), res.brief(), nil)
 		return false
 	}
-	if len(res.Entries) != len(c07Data) {
-		fail(fmt.Sprintf("%d entries returned for %d records: a rewriting stage never drops a line", len(res.Entries), len(c07Data)), len(res.Entries), len(c07Data))
+	if len(res.Entries) != len(data) {
+		fail(fmt.Sprintf("%d entries returned for %d records: a rewriting stage never drops a line", len(res.Entries), len(data)), len(res.Entries), len(data))
 		return false
 	}
 	byTS := map[int64]outEntry{}
@@ -146,7 +163,7 @@ func c07Check(r *vkit.Run, in c07Input) bool {
 			return false
 		}
 		if g.Line != w.Line {
-			fail(fmt.Sprintf("record %d (%q, labels %s): line is %q, expected %q", i, c07Data[i].Line, refmodel.Labels(mockq.InitialLabels(c07Data[i])).Key(), g.Line, w.Line), g.Line, w.Line)
+			fail(fmt.Sprintf("record %d (%q, labels %s): line is %q, expected %q", i, data[i].Line, refmodel.Labels(mockq.InitialLabels(data[i])).Key(), g.Line, w.Line), g.Line, w.Line)
 			return false
 		}
 		gl, wl := refmodel.Labels{}, refmodel.Labels{}
@@ -162,10 +179,10 @@ func c07Check(r *vkit.Run, in c07Input) bool {
 			delete(gl, refmodel.ErrorDetails)
 		}
 		if labelsForCompare(gl) != labelsForCompare(wl) {
-			fail(fmt.Sprintf("record %d (%q, labels %s): final labels are %s, expected %s", i, c07Data[i].Line, refmodel.Labels(mockq.InitialLabels(c07Data[i])).Key(), labelsForCompare(gl), labelsForCompare(wl)), labelsForCompare(gl), labelsForCompare(wl))
+			fail(fmt.Sprintf("record %d (%q, labels %s): final labels are %s, expected %s", i, data[i].Line, refmodel.Labels(mockq.InitialLabels(data[i])).Key(), labelsForCompare(gl), labelsForCompare(wl)), labelsForCompare(gl), labelsForCompare(wl))
 			return false
 		}
-		if w.Line != c07Data[i].Line || labelsForCompare(wl) != labelsForCompare(refmodel.Labels(mockq.InitialLabels(c07Data[i]))) {
+		if w.Line != data[i].Line || labelsForCompare(wl) != labelsForCompare(refmodel.Labels(mockq.InitialLabels(data[i]))) {
 			changed = true
 		}
 	}
@@ -200,6 +217,23 @@ func c07Run(r *vkit.Run) {
 			visit([]int{a, b})
 		}
 	}
+	// the same stages over labels that come out of `| json` (typed values)
+	visitJSON := func(st []int) {
+		idx++
+		if !r.Mine(idx) || r.Stop() {
+			return
+		}
+		if c07Check(r, c07Input{Stages: st, JSON: true}) {
+			r.NonTrivial()
+		}
+		r.State("json" + fmt.Sprint(st))
+	}
+	for a := range c07S {
+		visitJSON([]int{a})
+		for b := range c07S {
+			visitJSON([]int{a, b})
+		}
+	}
 	lat := 3
 	if r.Thorough() {
 		lat = 1
@@ -211,7 +245,7 @@ func c07Run(r *vkit.Run) {
 			}
 		}
 	}
-	r.Note("bounds", fmt.Sprintf("%d records (all 8 subsets of {a=1,b=2,c=x} x 8 lines with SGR sequences (ESC [ and U+009B introducers), lone ESC, bracket text without ESC) x all single stages, ordered pairs and triples (quick: a third of the triples) over %d stages: label_format renames/templates (incl. missing source, failing template, overwriting), line_format (labels, __line__, __timestamp__, failing, missing label), drop/keep with names and =,!=,=~,!~ matchers, decolorize", len(c07Data), len(c07S)))
+	r.Note("bounds", fmt.Sprintf("%d records (all 8 subsets of {a=1,b=2,c=x} x 8 lines with SGR sequences (ESC [ and U+009B introducers), lone ESC, bracket text without ESC) x all single stages, ordered pairs and triples (quick: a third of the triples) over %d stages: label_format renames/templates (incl. missing source, failing template, overwriting), line_format (labels, __line__, __timestamp__, failing, missing label), drop/keep with names and =,!=,=~,!~ matchers, decolorize; all single stages and ordered pairs again after | json over 7 JSON lines whose a, b, c are numbers, booleans and strings", len(c07Data), len(c07S)))
 }
 
 func c07Replay(r *vkit.Run, v vkit.Violation) *vkit.Violation {
